@@ -49,9 +49,9 @@ def pairs(tier):
                     continue
                 out.append((P(q.format(k="", c="")), q.format(k=kw, c=", "), "groupby-tree-kwargs"))
         # unique / drop_duplicates / value_counts
-        for q in ("L.a.unique({k})", "L.drop_duplicates(subset=['a']{c}{k})", "L.a.value_counts({k})", "L.drop_duplicates({k})", "L.a.nunique({k})"):
+        for q in ("L.a.unique({k})", "L.drop_duplicates(subset=['a']{c}{k})", "L.a.value_counts({k})", "L.drop_duplicates({k})", "L.a.nunique({k})", "L.b.value_counts(dropna=False{c}{k})", "L.b.value_counts(sort=False{c}{k})"):
             base = q.format(k="", c="")
-            for kw in ["split_out=1", "split_out=2", "split_out=True", "split_every=2", "split_every=3", "split_out=2, split_every=2"]:
+            for kw in ["split_out=1", "split_out=2", "split_out=True", "split_every=2", "split_every=3", "split_out=2, split_every=2", "split_out=1, split_every=2", "split_out=1, split_every=3"]:
                 if "nunique" in q and "split_out" in kw:
                     continue
                 out.append((P(base), q.format(k=kw, c=", " if "{c}" in q else ""), "unique-split"))
